@@ -17,7 +17,7 @@ RULE = (
     "reached state. (b) real get_national_summary_estimates with injected registers: 2 contests (thorough 3), B=2, per contest draws in "
     "{(-.1,-.1),(-.1,.1),(.1,.1),(.001,-.001)}^2, point margin in {-.1,-.001,.001,.1} consistent with its call, weights {1,3}, base {0,10}, six call/stop "
     "statuses, both threshold and correlation modes: lower<=pred<=upper; hard threshold => base<=lower, upper<=base+sum(weights), pred=base+sum(weights "
-    "of contests with positive reported margin); draws of a called, not stop-listed contest change neither bound. non-trivial = history has more than one "
+    "of contests with positive reported margin); draws of a called, not stop-listed contest change neither bound; a second evaluation on the same state returns the same. non-trivial = history has more than one "
     "aggregate computation / some contest is called, stopped or has draws disagreeing with its point prediction"
 )
 ASSUMPTIONS = ["'called contests contribute no uncertainty' is asserted for called and not stop-listed contests (a stop overrides a call, as in C07)"]
@@ -336,6 +336,11 @@ def _seam_case(case, cov, viol):
                     viol("summary-raised", f"{ctx}: {type(e).__name__}: {e}")
                     continue
                 runs += 1
+                if wts == weights_sets[0]:
+                    again = m.get_national_summary_estimates(d, base, 0.9)["margin"]
+                    if list(again) != [pred, lo, hi]:
+                        viol("summary-not-repeatable", f"{ctx}: a second evaluation with the same arguments gives {list(again)} after {[pred, lo, hi]}")
+                    cov["repeat_evaluations"] += 1
                 if not (lo <= pred <= hi):
                     viol(f"summary-not-ordered:{'correlation' if case['corr'] else 'independent'}", f"{ctx}: lower {lo} pred {pred} upper {hi}")
                 if case["hard"]:
